@@ -841,7 +841,9 @@ impl Transformer {
         }
 
         if close_root {
-            events.push(OutputEvent::End("svg".to_owned()));
+            // closed right behind what was generated into it: the emptied element need not
+            // be the last thing in the document (`<g><svg/></g>`)
+            OutputList::from(vec![OutputEvent::End("svg".to_owned())]).write_to(writer)?;
         }
         events.write_to(writer)
     }
